@@ -122,6 +122,49 @@ pub fn expect(cx: &mut Ctx, sig: &str, ok: bool, case: impl FnOnce() -> Value) -
     ok
 }
 
+/// a password-hash configuration with the given parameters, reached from a randomly chosen preset through the builder
+/// calls in a randomly chosen order (all of opslimit, memlimit, hash length and - unless `salt_len` is None - salt length
+/// are set, so the result does not depend on the preset or the order unless a builder call disturbs another field)
+#[cfg(feature = "full")]
+pub fn build_config(rng: &mut crate::prng::Rng, opslimit: u64, memlimit: usize, hash_len: usize, salt_len: Option<usize>) -> (dryoc::pwhash::Config, String) {
+    use dryoc::pwhash::Config;
+    let (mut cfg, mut desc) = match rng.below(4) {
+        0 => (Config::interactive(), String::from("interactive")),
+        1 => (Config::moderate(), String::from("moderate")),
+        2 => (Config::sensitive(), String::from("sensitive")),
+        _ => (Config::default(), String::from("default")),
+    };
+    let mut calls: Vec<u8> = vec![0, 1, 2];
+    if salt_len.is_some() {
+        calls.push(3);
+    }
+    for i in (1..calls.len()).rev() {
+        let j = rng.below(i + 1);
+        calls.swap(i, j);
+    }
+    for c in calls {
+        match c {
+            0 => {
+                cfg = cfg.with_opslimit(opslimit);
+                desc.push_str(".opslimit");
+            }
+            1 => {
+                cfg = cfg.with_memlimit(memlimit);
+                desc.push_str(".memlimit");
+            }
+            2 => {
+                cfg = cfg.with_hash_length(hash_len);
+                desc.push_str(".hash_length");
+            }
+            _ => {
+                cfg = cfg.with_salt_length(salt_len.unwrap());
+                desc.push_str(".salt_length");
+            }
+        }
+    }
+    (cfg, desc)
+}
+
 /// caller-side output buffers are handed over full of stale non-zero bytes: an implementation that reads its output
 /// buffer before writing it (accumulates into it, assembles a parameter in it) is right only on fresh zeroed memory
 pub fn stale(n: usize) -> Vec<u8> {
